@@ -4,7 +4,7 @@
    that the scope stack / captured stacks / parent chain of the real interpreter compute the
    same observables is what the correspondence run of checks/c03.py establishes (docs/C03.md). *)
 From Coq Require Import ZArith Bool List.
-From ZV Require Import Model.Num Model.RefSem Proofs.RefSemProofs.
+From ZV Require Import Model.Num Model.RefSem Proofs.RefSemProofs Model.ScopeImpl Proofs.ScopeImplProofs.
 Import ListNotations.
 Open Scope Z_scope.
 
@@ -137,7 +137,99 @@ Theorem lookup_skips_unbound : forall fs f env x fr,
   lookup_chain fs (f :: env) x = lookup_chain fs env x.
 Proof. exact RefSemProofs.lookup_chain_skip. Qed.
 
-(* ---- 6. non-vacuity ---- *)
+(* ---- 6. lookup_is_lexical: the REAL scope mechanism implements the static chains ----
+   Model/ScopeImpl.v mirrors environment.go:LexicalLookupSymbol / LexicalBindSymbol,
+   scopes.go:LookupSymbolUntilFunction / BindSymbol, closing.go:NewClosing, expressions.go:
+   LookupSymbolInParentChainOfClosures, vm.go:CreateClosureInstr / AddFuncScopeInstr / AddScopeInstr /
+   RemoveScopeInstr, functions.go:MakeFunction (state: live scope stack with function-boundary flags, current
+   function with captured stack and parent, saved functions).  The harness replays the real VM's scope events on
+   the extracted machine and compares the lookup structure before every lookup/bind instruction. *)
+
+(* core machine (live stack, closures' captured stacks, parent chain): the staged lookup is lexical lookup on
+   the static chain whenever the scopes it consults, in order, are the frames of that chain *)
+Theorem lookup_is_lexical : forall fs env st x, R env st ->
+  impl_lookup fs st x = lookup_chain fs env x.
+Proof. exact ScopeImplProofs.lookup_is_lexical. Qed.
+Print Assumptions lookup_is_lexical.
+
+Theorem def_target_is_lexical : forall env st, R env st -> live st <> [] -> bind_target st = hd O env.
+Proof. exact ScopeImplProofs.def_target_is_lexical. Qed.
+
+Theorem set_target_is_lexical : forall fs env st x, R env st -> live st <> [] ->
+  set_target fs st x = match lookup_chain fs env x with Some (f, _) => f | None => hd O env end.
+Proof. exact ScopeImplProofs.set_target_is_lexical. Qed.
+
+(* (i) the relation holds initially; (ii) it is preserved by every scope-relevant event: entering / leaving a
+   let, letseq, newScope or for scope (and each unit of a break's scopesToPop), evaluating an argument in its
+   callExprEval function and leaving it, calling a closure (CallFunction + AddFuncScope), returning, the self tail
+   call (remove the extra scopes and the function scope, re-enter through AddFuncScope), def / set / closure
+   creation; (iii) hence in every reachable configuration the real lookup is lexical *)
+Theorem scope_inv_init : inv [mkJ [O] [] false O] init_istate.
+Proof. exact ScopeImplProofs.inv_init. Qed.
+
+Theorem scope_inv_preserved : forall frs st frs' st',
+  inv frs st -> jstep (frs, st) (frs', st') -> inv frs' st'.
+Proof. exact ScopeImplProofs.inv_preserved. Qed.
+Print Assumptions scope_inv_preserved.
+
+Theorem reachable_lookup_is_lexical : forall fs fr rest st x,
+  jsteps ([mkJ [O] [] false O], init_istate) (fr :: rest, st) ->
+  impl_lookup fs st x = lookup_chain fs (jf_env fr) x.
+Proof. exact ScopeImplProofs.reachable_lookup_is_lexical. Qed.
+Print Assumptions reachable_lookup_is_lexical.
+
+(* a closure created in a reachable configuration captures the static chain of the running code (NewClosing
+   trims at the innermost function scope; the parent chain supplies the rest): this is the premise of J_call *)
+Theorem reachable_closure_captures : forall fr rest st,
+  jsteps ([mkJ [O] [] false O], init_istate) (fr :: rest, st) ->
+  map sc_id (pchain (create_closure st)) = jf_env fr.
+Proof. exact ScopeImplProofs.reachable_closure_captures. Qed.
+Print Assumptions reachable_closure_captures.
+
+(* faithful layer (MakeFunction snapshots for mainfunc, callExprEval functions and templates; the third stage of
+   LexicalLookupSymbol): under cov the real three-stage lookup equals the lookup of the core machine, hence is
+   lexical; cov holds initially and is re-established by each transition.
+   lookup_is_lexical_partial -- what is NOT closed: (a) cov is proved transition by transition (cov_init,
+   cov_add_scope, cov_enter_arg, cov_create_closure, cov_call, cov_tail_call, cov_restore) but not assembled into one
+   induction over event sequences as scope_inv_preserved is (the restoring transitions need the well-bracketing of
+   the events); (b) the premise of cov_call / cov_tail_call that the template's captured stack lies inside the
+   closure's chain is justified by when templates are compiled, is checked by the replay on every run, not proved;
+   (c) that RefSem.eval emits exactly these events is by construction of the evaluator, not a theorem. *)
+Theorem lookup_is_lexical_faithful : forall fs env st x, cov st -> R env (erase st) ->
+  impl_lookupF fs st x = lookup_chain fs env x.
+Proof. exact ScopeImplProofs.lookup_is_lexical_faithful. Qed.
+Print Assumptions lookup_is_lexical_faithful.
+
+Theorem faithful_lookup_is_core : forall fs st x, cov st -> impl_lookupF fs st x = impl_lookup fs (erase st) x.
+Proof. exact ScopeImplProofs.faithful_lookup_is_core. Qed.
+
+Theorem cov_init : cov init_istateF.
+Proof. exact ScopeImplProofs.cov_init. Qed.
+Theorem cov_add_scope : forall id st, cov st -> cov (add_scopeF id st).
+Proof. exact ScopeImplProofs.cov_add_scope. Qed.
+Theorem cov_enter_arg : forall st, cov st -> cov (enter_argF st).
+Proof. exact ScopeImplProofs.cov_enter_arg. Qed.
+Theorem cov_create_closure : forall st, cov st -> wf_clos (create_closureF st).
+Proof. exact ScopeImplProofs.cov_create_closure. Qed.
+Theorem cov_call : forall f id tmpl st, wf_clos f -> incl tmpl (corep f) ->
+  cov (add_func_scopeF id tmpl (enter_fnF f st)).
+Proof. exact ScopeImplProofs.cov_call. Qed.
+Theorem cov_tail_call : forall k id tmpl st cl par, curF st = GSub false cl par -> wf_clos (curF st) ->
+  incl tmpl (corep (curF st)) -> cov (add_func_scopeF id tmpl (pop_scopesF k st)).
+Proof. exact ScopeImplProofs.cov_tail_call. Qed.
+Theorem cov_restore : forall st0 st1, cov st0 -> liveF st1 = liveF st0 -> curF st1 = curF st0 -> cov st1.
+Proof. exact ScopeImplProofs.cov_restore. Qed.
+
+(* ---- 7. non-vacuity ---- *)
+
+(* a closure created inside function scope 1 with a let scope 2 on top, called later from elsewhere with its own
+   function scope 5 on a live stack that also holds the caller's scopes 3 and 4: the lookup consults 5, then the
+   captured 2 and 1, then the parent's captured global 0 -- never 3 or 4 *)
+Example ex_impl_chain :
+  let c := FSub (Some [mkScope 2 false; mkScope 1 true]) (FSub (Some [mkScope 0 false]) FMain) in
+  map sc_id (impl_chain (mkI [mkScope 5 true; mkScope 4 false; mkScope 3 true; mkScope 0 false] c [])) = [5; 2; 1; 0]%nat.
+Proof. vm_compute. reflexivity. Qed.
+
 
 (* (def x 10) (defn f [] x) (defn g [x] (f)) (g 1) = 10, not 1 *)
 Example ex_not_dynamic :
